@@ -12,6 +12,8 @@ open OdfModel OdfModel.GrammarExceptions OdfModel.Grammar OdfModel.GrammarApi Od
     text|cdata <chk> <e>      ok | err IllegalText
     setrow <chk> <e>          ok <per keyword of the keyword universe (kname order): attribute id | A (AttributeError) | V (ValueError)>
     ctor <chk> <e> <given>    ok | err AttributeError <missing attribute id>
+    ctorkw <chk> <e> <given> <kws>   ok | err AttributeError kw <index> | err AttributeError missing <attribute id>
+                              (<kws> = indices into the keyword universe, in the order the keywords are passed)
     factories                 ok <element ids produced by the factories>
     exceptions | known        ok <kind|element|item> …      (the hand-written lists of GrammarExceptions.lean, by name)
     prefixes                  ok <excepted element-name prefixes>
@@ -65,6 +67,14 @@ def handle (line : String) : String :=
       | some c, some e, some g => (match construct T (c != 0) e g with
           | .ok _ => "ok" | .error (x, r) => s!"err {errName x} {r}")
       | _, _, _ => "err bad-arg"
+  | ["ctorkw", c, e, g, ks] => match c.toNat?, e.toNat?, parseList g, parseList ks with
+      | some c, some e, some g, some ks =>
+        let kws := ks.map fun i => GrammarNames.kwName[i]?.getD 0
+        (match constructKw T (c != 0) e g kws with
+          | .ok _ => "ok"
+          | .error (.refusedKeyword kw) => s!"err AttributeError kw {GrammarNames.kwName.idxOf kw}"
+          | .error (.missingRequired r) => s!"err AttributeError missing {r}")
+      | _, _, _, _ => "err bad-arg"
   | ["factories"] => "ok " ++ showList GrammarFactories.factoryQnames
   | ["exceptions"] => showRows Exceptions
   | ["known"] => showRows KnownFindings
